@@ -98,8 +98,19 @@ func Sign(manifest []byte, cert *certloader.Certificate, opts crypto.SignerOpts)
 			AssemblyName:    asi.SelectAttrValue("name", ""),
 			AssemblyVersion: asi.SelectAttrValue("version", ""),
 			Hash:            opts.HashFunc(),
-			PublicKeyToken:  asi.SelectAttrValue("publicKeyToken", ""),
+			PublicKeyToken:  unprefixedAttr(asi, "publicKeyToken"),
 		}}, nil
+}
+
+// unprefixedAttr returns the value of the attribute that CreateAttr(key) writes: the one without a namespace prefix.
+// (SelectAttrValue(key) would return the first attribute with that local name whatever its prefix.)
+func unprefixedAttr(e *etree.Element, key string) string {
+	for _, a := range e.Attr {
+		if a.Space == "" && a.Key == key {
+			return a.Value
+		}
+	}
+	return ""
 }
 
 // Update the assemblyIdentity element with the actual signer public key. Only
